@@ -207,6 +207,17 @@ def run(scn, H, execu):
         if len(eps) < 2:
             return H, out, st
         e0, e1 = eps[0], eps[1]
+        reset_op = next((o for o in scn['schedule'] if o['op'] == 'reset'), {})
+        if not reset_op.get('reapply_pwm', True):
+            # the user re-applied position and speed only; reset() restores
+            # the duty cycle recorded at t = 0, which reproduces the original
+            # start only if the controller had applied the pre-run value
+            pwm0 = v.series(e0, 0, 'pwm')
+            if not pwm0 or not e0['segments'] or \
+                    pwm0[0] != e0['segments'][0]['pwm_in']:
+                st['rerun_not_comparable'] += 1
+                return H, out, st
+            st['rerun_pwm_left_to_reset'] += 1
         st['instants'] += v.n_valid(e0) + v.n_valid(e1)
         new = any(s['new_solver'] for s in e1['segments'])
         st['rerun_new_solver' if new else 'rerun_same_solver'] += 1
